@@ -141,3 +141,33 @@ func itoa(n int) string {
 	}
 	return string(b)
 }
+
+// ParseInt models strconv.ParseInt for base 10 / 64 bits and at most 18 characters.
+func ParseInt(s string, base int, bitSize int) (int64, error) {
+	if base != 10 || (bitSize != 64 && bitSize != 0) || len(s) > 18 {
+		panic("models.ParseInt: only base 10, 64 bits, <= 18 characters are modelled")
+	}
+	if len(s) == 0 {
+		return 0, errSyntax
+	}
+	neg := false
+	if s[0] == '-' || s[0] == '+' {
+		neg = s[0] == '-'
+		s = s[1:]
+		if len(s) == 0 {
+			return 0, errSyntax
+		}
+	}
+	n := int64(0)
+	for i := 0; i < len(s); i++ {
+		c := s[i]
+		if c < '0' || c > '9' {
+			return 0, errSyntax
+		}
+		n = n*10 + int64(c-'0')
+	}
+	if neg {
+		n = -n
+	}
+	return n, nil
+}
